@@ -165,6 +165,7 @@ def explore(res, rng, n, exhaustive=None):
     config_scale(res, rng, max(12, n // 40))
     cyc.extreme_scale_stream(res, cyc.NAMES, rng, max(12, n // 60))      # scale invariance at magnitudes 2^-1000 … 2^900 (cycle lists, exact)
     cyc.narrow_dtype_stream(res, cyc.NAMES, rng, max(10, n // 80))
+    cyc.config_cycles_stream(res, cyc.NAMES, rng, max(16, n // 60))
     for (kind, api, h, s, h2, a, b), ans in zip(meta, core.driver_batch(reqs)):
         if ans != 'ok':
             res.failures.append({'signature': f'C03:{api}:{kind}:{enc_list(h)}->{enc_list(h2)}', 'clause': kind, 'api': api,
